@@ -311,6 +311,87 @@ pub fn ipa_padded_forgery(rec: &mut Rec) {
     }
 }
 
+
+/// Constructive forgery against an IPA verifier whose hiding challenge does not bind the prover's `hiding_comm`
+/// (weak Fiat-Shamir): the library's prover is run on the adversary's own polynomial `q`; the proof is then given
+/// `hiding_comm = (xi*C_q - xi*C_p) / chi`, `rand = 0`, with `chi` computed from the public data the verifier would
+/// hash if it left `hiding_comm` (and possibly more) out - after the hiding step the verifier's combined commitment
+/// is `xi*C_q` and the rest of the `q`-proof verifies the value `q(z)` against the honest commitment to `p`.  Against a
+/// sound verifier `chi` depends on `hiding_comm` itself and the construction fails.  Four guesses of the hashed
+/// inputs, hiding and non-hiding commitments to `p`, `check` and a one-point `batch_check`.
+pub fn ipa_unbound_hiding_forgery(rec: &mut Rec) {
+    use crate::refm::{challenge, naive_mul, ro_challenge, ser_unc};
+    use crate::schemes::{sponge_pre, FrJ, GJ, UP};
+    use ark_ec::{AffineRepr, CurveGroup};
+    use ark_ff::{Field, Zero};
+    use ark_poly::DenseUVPolynomial;
+    use ark_poly_commit::ipa_pc::Proof;
+    for s_deg in [3usize, 7] {
+        for hp in [None, Some(1usize)] {
+            for variant in ["C,z,v", "C,z", "C,v", "C"] {
+                for zname in ["r1", "r2"] {
+                    let id = format!("IPA/forge/unbound-hiding-comm/s={}/hiding={:?}/hashed=({})/z={}", s_deg, hp, variant, zname);
+                    if !rec.take(&id) {
+                        continue;
+                    }
+                    rec.dim("scheme", "IPA");
+                    let cfg = KeyCfg::uni(s_deg, s_deg, 1, None);
+                    let keys = match build_keys::<SIpa>(&cfg, rec.seed) {
+                        Ok(k) => k,
+                        Err(_) => continue,
+                    };
+                    let n = s_deg + 1;
+                    let r = crate::alpha::rho_stream::<FrJ>(rec.seed, 1, 2 * n + 1);
+                    let p = UP::<FrJ>::from_coefficients_slice(&r[..n]);
+                    let q = UP::<FrJ>::from_coefficients_slice(&r[n..2 * n]);
+                    let c = match commit_set::<SIpa>(&keys, vec![lp::<SIpa>("p", p.clone(), None, hp), lp::<SIpa>("q", q.clone(), None, None)], rec.seed, 0) {
+                        Ok(c) => c,
+                        Err(_) => continue,
+                    };
+                    let z = crate::alpha::rho::<FrJ>(rec.seed, if zname == "r1" { 1 } else { 2 });
+                    if p.evaluate(&z) == q.evaluate(&z) {
+                        continue;
+                    }
+                    let sq = match open_single::<SIpa>(&keys, &c, &[1], &z, 0, rec.seed, 0) {
+                        Ok(s) => s,
+                        Err(_) => continue,
+                    };
+                    rec.op(3);
+                    let mut sp = sponge_pre::<FrJ>(0);
+                    let xi: FrJ = challenge(&mut sp);
+                    let cp = c.comms[0].commitment().comm;
+                    let cq = c.comms[1].commitment().comm;
+                    let combined_p = naive_mul(&cp, &xi).into_affine();
+                    let v = xi * q.evaluate(&z);
+                    let mut bytes = Vec::new();
+                    ser_unc(&combined_p, &mut bytes);
+                    if variant.contains('z') {
+                        ser_unc(&z, &mut bytes);
+                    }
+                    if variant.contains('v') {
+                        ser_unc(&v, &mut bytes);
+                    }
+                    let chi: FrJ = ro_challenge(&bytes);
+                    let diff = (naive_mul(&cq, &xi) - naive_mul(&cp, &xi)).into_affine();
+                    let hc = naive_mul(&diff, &chi.inverse().unwrap()).into_affine();
+                    let forged = Proof::<GJ> { l_vec: sq.proof.l_vec.clone(), r_vec: sq.proof.r_vec.clone(), final_comm_key: sq.proof.final_comm_key, c: sq.proof.c, hiding_comm: Some(hc), rand: Some(FrJ::zero()) };
+                    let comms: Vec<&LCm<SIpa>> = vec![&c.comms[0]];
+                    let fv = q.evaluate(&z);
+                    let d = check_single::<SIpa>(&keys, &comms, &z, &[fv], &forged, 0, rec.seed, 0);
+                    expect_reject(rec, &d, "IPA", "check", "forged:hiding-comm-absorbs-the-commitment-difference", &id, format!("proof of q with hiding_comm = (xi*C_q - xi*C_p)/chi, chi = RO({}), claim q(z) for the commitment to p: {}", variant, d.short()));
+                    let mut qs = ark_poly_commit::QuerySet::<FrJ>::new();
+                    qs.insert(("p".into(), ("a".into(), z)));
+                    let mut ev = ark_poly_commit::Evaluations::<FrJ, FrJ>::new();
+                    ev.insert(("p".to_string(), z), fv);
+                    let bp: BPf<SIpa> = vec![forged];
+                    let d = check_batch::<SIpa>(&keys, &comms, &qs, &ev, &bp, 0, rec.seed, 0);
+                    expect_reject(rec, &d, "IPA", "batch_check", "forged:hiding-comm-absorbs-the-commitment-difference", &id, format!("claim q(z): {}", d.short()));
+                }
+            }
+        }
+    }
+}
+
 /// Constructive forgery against a pairing batch verifier that weights two proofs equally: a false value
 /// at the first point together with opposite shifts `W_1 + aG`, `W_2 - aG`, `a = xi_1 * delta / (z_1 - z_2)`
 /// (`xi_1` the public opening challenge of the first group).  With independent verifier randomizers it
@@ -486,6 +567,7 @@ pub fn run(rec: &mut Rec) {
         mutate_batch::<S>(rec, ms);
     });
     ipa_padded_forgery(rec);
+    ipa_unbound_hiding_forgery(rec);
     lig_vanishing_forgery(rec);
     equal_weight_forgery::<SMar>(rec, &|vk| vk.vk.g, &|p, w| ark_poly_commit::kzg10::Proof { w, random_v: p.random_v }, &|p| p.w);
     equal_weight_forgery::<SSon>(rec, &|vk| vk.g, &|p, w| ark_poly_commit::kzg10::Proof { w, random_v: p.random_v }, &|p| p.w);
